@@ -128,6 +128,10 @@ def gen(seed, index):
                 ops.append(["del"])
             ops.append([rng.choice(["c", "c", "c2", "m", "m"]), a])
         return ["lazy2", rng.choice([0, 0, 0, 1])] + ops
+    if rng.random() < 0.3:
+        # the bare function raises for the argument 99; the wrapper must do the same and must answer every later call as before
+        for _ in range(rng.randint(1, 2)):
+            calls.insert(rng.randint(0, len(calls)), 99)
     return ["lazy", rng.choice([0, 0, 0, 1])] + calls
 
 
@@ -142,6 +146,8 @@ def canon(o):
 
 
 def model_case(case):
+    if case[0] == "lazy":
+        return case[:2] + [a for a in case[2:] if int(a) != 99]     # a call in which the function raises leaves no trace in the model
     return case[:3] if case[0] == "round" else case
 
 
@@ -175,6 +181,8 @@ def compare(case, mo, io):
                 return f"scale: model {x!r} impl {y!r}"
         return None
     a = canon(mo)
+    if k == "lazy":
+        io = [x for x in io if not (isinstance(x, list) and x and x[0] == "raised")]
     b = canon([x for x in io if not (isinstance(x, list) and x and isinstance(x[0], str) and x[0].endswith(("differs", "changed")))])
     if k == "sums":
         a, b = sorted(map(tuple, a[1:])), sorted(map(tuple, b[1:]))
@@ -312,8 +320,15 @@ def oracle(case, io, mo):
     if k == "lazy":
         force = case[1] in ("1", 1)
         prev = None
-        for a, (v, ran) in zip(case[2:], io[1:]):
+        for a, r in zip(case[2:], io[1:]):
             a = int(a)
+            if a == 99:
+                if r != ["raised", "ValueError"]:
+                    return f"the bare function raises ValueError for 99, the cached function gave {sx.show(r)}"
+                continue
+            if r and r[0] == "raised":
+                return f"the cached function raised {r[1]} for argument {a} (after {prev}), the bare function returns {a * a + 1}"
+            v, ran = r
             if int(v) != a * a + 1:
                 return f"the cached function returned {v} for argument {a}, the bare function returns {a * a + 1}"
             exp_ran = force or prev is None or prev != a
@@ -363,7 +378,7 @@ def nontrivial(case, io):
     if k == "lazy2":
         return any(op[0] in ("m", "c2", "del") for op in case[2:])
     if k == "lazy":
-        c = case[2:]
+        c = [x for x in case[2:] if int(x) != 99]
         return any(c[i] == c[i + 1] for i in range(len(c) - 1)) and len(set(c)) > 1
     if k == "sss":
         return len(case) > 3
